@@ -53,7 +53,7 @@ def sym_delta(ctx, ex, nops, maxlit, cap):
 
 def mk_executor(ctx, bl, nops, maxlit):
     cap = max(1, nops * max(bl, maxlit))
-    ex = ctx.ex(K=nops + 3)
+    ex = ctx.ex(K=2 * nops + 5)
     deltamodels.install(ex, window_cap=1, byte_cap=cap, cand_cap=1)
     patchmodels.install(ex)
     ex.hash_cap = cap + 1
